@@ -713,6 +713,20 @@ fn run_compound(input: &[u8]) -> Kvs {
             let mut items = vec![];
             let mut n = 0usize;
             let mut failed = false;
+            // ranges inside each yielded packet are reported relative to that packet's own first
+            // byte: the tile start is tracked from the length() of the packets yielded so far
+            let mut tile = 0usize;
+            let item_obs = |r: Result<Packet, RtcpParseError>, tile: &mut usize| -> Obs {
+                let base = &input[(*tile).min(input.len())..];
+                match r {
+                    Ok(p) => {
+                        let o = ok(obs_packet(base, &p));
+                        *tile += guard(|| p.length()).unwrap_or(0);
+                        o
+                    }
+                    Err(e) => err(perr(&e)),
+                }
+            };
             loop {
                 if n >= cap {
                     items.push(S("FUEL"));
@@ -730,10 +744,7 @@ fn run_compound(input: &[u8]) -> Kvs {
                         break;
                     }
                     Ok(Some(r)) => {
-                        items.push(some(match r {
-                            Ok(p) => ok(obs_packet(input, &p)),
-                            Err(e) => err(perr(&e)),
-                        }));
+                        items.push(some(item_obs(r, &mut tile)));
                         n += 1;
                     }
                 }
@@ -746,10 +757,7 @@ fn run_compound(input: &[u8]) -> Kvs {
                             break;
                         }
                         Ok(None) => items.push(none()),
-                        Ok(Some(r)) => items.push(some(match r {
-                            Ok(p) => ok(obs_packet(input, &p)),
-                            Err(e) => err(perr(&e)),
-                        })),
+                        Ok(Some(r)) => items.push(some(item_obs(r, &mut tile))),
                     }
                 }
             }
